@@ -5,7 +5,7 @@ PROP, LEVEL, ENGINE = "C03", "other", "jxvc"
 DESIGN_REF = "DESIGN.md section 3 C03"
 TECHNIQUE = ("deductive, value-universal/shape-bounded: force-bias jaxprs (hand-coded and reverse-mode AD, interpreted through lu / "
              "triangular_solve / custom_linear_solve at the generic point) decided as rational identities against <psi|L_g|phi>/<psi|phi> on the Fock space")
-EXPLANATION = ("Identities of rational functions in ALL symbolic inputs at enumerated shapes: single-determinant/NOCI kinds through the Green's-"
+EXPLANATION = ("all-sizes (proof): fb.allsizes.{uhf,rhf[r=0],rhf[r=1]} - real intermediates + real force bias == sum_s tr(L_g^T conj(C_s) G_s) for ALL sizes (tensor normal form with symbolic sizes, DESIGN 2.3b). Identities of rational functions in ALL symbolic inputs at enumerated shapes: single-determinant/NOCI kinds through the Green's-"
                "function contract and the one-body Wick lemma; hand-coded cisd/ucisd and the reverse-mode (vjp) force bias of CISD/UCISD/GCISD/"
                "CISD_THC directly against the Fock-space mixed expectation of L_g, which is the logarithmic derivative of the overlap along exp(x L_g) "
                "(forward-mode definition); restricted == unrestricted entry points. Shape-bounded => level 'other'.")
@@ -41,6 +41,10 @@ def tasks(tier):
     if tier == "thorough":
         t.append(("contracts.ms", "ms_fb", dict(norb=4, nu=2, nd=1, ref=5)))
     t.append((W, "obs_ru", dict(kind="rhf", norb=3, nocc=1, what="fb")))
+    # all sizes (norb, n_up, n_dn, nchol symbolic): tensor normal form of the real intermediates + estimator against the Wick form
+    t.append(("contracts.allsizes", "uhf_wick", dict(what="fb")))
+    t.append(("contracts.allsizes", "rhf_wick", dict(what="fb", restricted=True)))
+    t.append(("contracts.allsizes", "rhf_wick", dict(what="fb", restricted=False)))
     t.append((W, "canary", dict(which="fb")))
     return t
 
